@@ -27,14 +27,69 @@ def unparse(node):
     return ast.unparse(node)
 
 
+_CACHE_KEY = None
+
+
+def _cache_key():
+    """digest of everything the normalised tree depends on besides the
+    module's own source"""
+    global _CACHE_KEY
+    if _CACHE_KEY is None:
+        import hashlib
+        h = hashlib.sha1()
+        here = os.path.dirname(os.path.abspath(__file__))
+        for fn in ("normalize.py", "inline.py", "refnames.json"):
+            try:
+                with open(os.path.join(here, fn), "rb") as fin:
+                    h.update(fin.read())
+            except OSError:
+                pass
+        import sys
+        h.update(repr(sys.version_info[:2]).encode())
+        h.update(os.environ.get("SA_CANON_FLOW", "1").encode())
+        _CACHE_KEY = h.hexdigest()
+    return _CACHE_KEY
+
+
+def _normalized_tree(source, path, name):
+    """parse + normalise, memoised on disk by content (the cache is an
+    optimisation only: a miss recomputes)"""
+    import hashlib
+    import pickle
+    import tempfile
+    from . import normalize
+    if os.environ.get("SA_NO_CACHE") == "1":
+        tree = ast.parse(source, path)
+        return tree, normalize.normalize(tree, name)
+    key = hashlib.sha1((_cache_key() + name + "\0" + source).encode()
+                       ).hexdigest()
+    cdir = os.path.join(tempfile.gettempdir(), f"sa-cache-{os.getuid()}")
+    cpath = os.path.join(cdir, key + ".pickle")
+    try:
+        with open(cpath, "rb") as fin:
+            tree, info = pickle.load(fin)
+        return tree, info
+    except Exception:
+        pass
+    tree = ast.parse(source, path)
+    info = normalize.normalize(tree, name)
+    try:
+        os.makedirs(cdir, exist_ok=True)
+        tmp = cpath + f".{os.getpid()}.tmp"
+        with open(tmp, "wb") as fout:
+            pickle.dump((tree, info), fout, protocol=pickle.HIGHEST_PROTOCOL)
+        os.replace(tmp, cpath)
+    except Exception:
+        pass
+    return tree, info
+
+
 class Module:
     def __init__(self, name, path, source):
         self.name = name
         self.path = path
         self.source = source
-        self.tree = ast.parse(source, path)
-        from . import normalize
-        self.normalized = normalize.normalize(self.tree, name)
+        self.tree, self.normalized = _normalized_tree(source, path, name)
         for parent in ast.walk(self.tree):
             for child in ast.iter_child_nodes(parent):
                 child._parent = parent
